@@ -32,6 +32,9 @@ func createEndpointSliceHandlers(lbc *LoadBalancerController) cache.ResourceEven
 			}
 			nl.Debugf(lbc.Logger, "Removing EndpointSlice: %v", endpointSlice.Name)
 			lbc.AddSyncQueue(obj)
+			// A deleted EndpointSlice can no longer be looked up when its task is synced, so the resources that
+			// use its Service would keep its endpoints. Resync the Service instead: it regenerates those resources.
+			lbc.enqueueServiceOfEndpointSlice(endpointSlice)
 		}, UpdateFunc: func(old, cur interface{}) {
 			if !reflect.DeepEqual(old, cur) {
 				nl.Debugf(lbc.Logger, "EndpointSlice %v changed, syncing", cur.(*discovery_v1.EndpointSlice).Name)
@@ -39,6 +42,23 @@ func createEndpointSliceHandlers(lbc *LoadBalancerController) cache.ResourceEven
 			}
 		},
 	}
+}
+
+// enqueueServiceOfEndpointSlice adds the Service an EndpointSlice belongs to, if it still exists, to the sync queue.
+func (lbc *LoadBalancerController) enqueueServiceOfEndpointSlice(endpointSlice *discovery_v1.EndpointSlice) {
+	svcName := endpointSlice.Labels["kubernetes.io/service-name"]
+	if svcName == "" {
+		return
+	}
+	nsi := lbc.getNamespacedInformer(endpointSlice.Namespace)
+	if nsi == nil || nsi.svcLister == nil {
+		return
+	}
+	svc, exists, err := nsi.svcLister.GetByKey(endpointSlice.Namespace + "/" + svcName)
+	if err != nil || !exists {
+		return
+	}
+	lbc.AddSyncQueue(svc)
 }
 
 // addEndpointSliceHandler adds the handler for EndpointSlices to the controller
